@@ -1809,10 +1809,12 @@ class Fxp():
 
     def like(self, x):
         if isinstance(x, self.__class__):
-            new_raw_val = _shift_raw(self.val, x.n_frac - self.n_frac, self.n_word)
             y = x.deepcopy()
             y.reset()   # the status of the template is not the status of the new object
-            y.set_val(new_raw_val, raw=True)
+            if self.scaled or x.scaled:
+                y.set_val(self)     # objects with scale or bias exchange values, not raw codes
+            else:
+                y.set_val(_shift_raw(self.val, x.n_frac - self.n_frac, self.n_word), raw=True)
             if self.status['inaccuracy']: y.status['inaccuracy'] = True     # propagate inaccuracy from the converted object
             return y
         else:
